@@ -1,11 +1,172 @@
+import TinsModel.Dns.Spec
 import Driver.Util
-/- line-protocol driver for property C10 (stub until the area is built) -/
+/- line-protocol driver for property C10 (DNS): model mode and spec (oracle) mode.
+   Ops:  new | parse <hex> [@V Q=.. AN=.. AU=.. AD=.. | @E <getter>] | addq <name> <type> <class>
+         | adda/addu/addd <name> <type> <class> <ttl> <pref> <data> [4.<hex>|6.<hex>|x] | reparse | ser -/
 namespace Driver.C10
-open Driver
+open Driver Tins Tins.Dns
 
-def step (st : Unit) (_line : String) : Unit × String := (st, "unimplemented")
-def specStep (st : Unit) (_line : String) : Unit × String := (st, "unimplemented")
-def initModel : Unit := ()
-def initSpec : Unit := ()
+def excName : Exc → String
+  | .malformedPacket => "malformed_packet"
+  | .pointerLoops => "dns_decompression_pointer_loops"
+  | .pointerOob => "dns_decompression_pointer_out_of_bounds"
+  | .invalidAddress => "invalid_address"
+
+def showQuery (q : Query) : String := s!"{toHex q.name}:{q.type}:{q.cls}"
+
+def showResource (r : Resource) : String :=
+  let d := match r.data with
+    | .str b => "s." ++ toHex b
+    | .v6 b => "6." ++ toHex b
+  s!"{toHex r.name}:{r.type}:{r.cls}:{r.ttl}:{r.pref}:{d}"
+
+def showList (xs : List String) : String := "[" ++ joinWith "," xs ++ "]"
+
+def showOut {α} (f : α → String) : Out (List α) → String
+  | .ok xs => showList (xs.map f)
+  | .throw e => "!" ++ excName e
+  | .fault s => "MODEL-FAULT:" ++ s
+
+def showState (res : String) (m : Msg) : String :=
+  s!"{res} h={m.q},{m.an},{m.au},{m.ad} i={m.ai},{m.ui},{m.di} r={toHex m.recs} Q={showOut showQuery (queries m)} AN={showOut showResource (answers m)} AU={showOut showResource (authority m)} AD={showOut showResource (additional m)}"
+
+def parseAux (s : String) : Option Bytes :=
+  if s.startsWith "4." || s.startsWith "6." then parseHex (s.drop 2).toString else none
+
+def parseNewRec (ws : List String) : Option NewRec :=
+  match ws with
+  | n :: t :: c :: ttl :: p :: d :: rest => do
+    let n ← parseHex n
+    let t ← t.toNat?
+    let c ← c.toNat?
+    let ttl ← ttl.toNat?
+    let p ← p.toNat?
+    let d ← parseHex d
+    let aux := match rest with
+      | a :: _ => parseAux a
+      | [] => none
+    pure ⟨n, t, c, ttl, p, d, aux⟩
+  | _ => none
+
+def secOf (op : String) : Option Section :=
+  if op == "adda" then some .answer else if op == "addu" then some .authority
+  else if op == "addd" then some .additional else none
+
+def applyOut (m : Msg) (r : Out Msg) : Msg × String :=
+  match r with
+  | .ok m' => (m', showState "ok" m')
+  | .throw e => (m, showState ("throw:" ++ excName e) m)
+  | .fault s => (m, "MODEL-FAULT:" ++ s)
+
+def step (m : Msg) (line : String) : Msg × String :=
+  match words line with
+  | "new" :: _ => let m' : Msg := {}; (m', showState "ok" m')
+  | "parse" :: h :: _ =>
+    match parseHex h with
+    | some b =>
+      match parse b with
+      | .ok m' => (m', showState "ok" m')
+      | .throw e => let m' : Msg := {}; (m', showState ("throw:" ++ excName e) m')
+      | .fault s => ({}, "MODEL-FAULT:" ++ s)
+    | none => (m, "bad-op")
+  | "addq" :: n :: t :: c :: _ =>
+    match parseHex n, t.toNat?, c.toNat? with
+    | some n, some t, some c => applyOut m (addQuery m ⟨n, t, c⟩)
+    | _, _, _ => (m, "bad-op")
+  | "reparse" :: _ =>
+    match parse (serialize m) with
+    | .ok m' => (m', showState "ok" m')
+    | .throw e => (m, showState ("throw:" ++ excName e) m)
+    | .fault s => (m, "MODEL-FAULT:" ++ s)
+  | "ser" :: _ => (m, "ser " ++ toHex (serialize m))
+  | op :: rest =>
+    match secOf op, parseNewRec rest with
+    | some sec, some r => applyOut m (addRecord m sec r)
+    | _, _ => (m, "bad-op")
+  | _ => (m, "bad-op")
+
+def initModel : Msg := {}
+
+/-! ### oracle -/
+
+/-- expected getter results as canonical strings per record; `none` = the case left the specified fragment -/
+structure OState where
+  exp : Option (List String × List String × List String × List String) := none
+
+def kv (ws : List String) (key : String) : Option String :=
+  ws.findSome? (fun w => if w.startsWith (key ++ "=") then some ((w.drop (key.length + 1)).toString) else none)
+
+def parseListStr (s : String) : Option (List String) :=
+  if s.startsWith "[" && s.endsWith "]" then
+    let inner := ((s.drop 1).dropEnd 1).toString
+    if inner == "" then some [] else some (inner.splitOn ",")
+  else none
+
+def checkObs (e : List String × List String × List String × List String) (res : String) (ow : List String) : String :=
+  let (q, an, au, ad) := e
+  if ow.head? != some res then s!"violates result expected={res} got={ow.head?.getD ""}"
+  else if kv ow "h" != some s!"{q.length % 65536},{an.length % 65536},{au.length % 65536},{ad.length % 65536}" then
+    s!"violates counts expected={q.length},{an.length},{au.length},{ad.length} got={(kv ow "h").getD ""}"
+  else if kv ow "Q" != some (showList q) then "violates sections queries"
+  else if kv ow "AN" != some (showList an) then "violates sections answers"
+  else if kv ow "AU" != some (showList au) then "violates sections authority"
+  else if kv ow "AD" != some (showList ad) then "violates sections additional"
+  else "ok"
+
+/-- spec mode: each input line is `<op> ||| <implementation output>` -/
+def specStep (st : OState) (line : String) : OState × String :=
+  match line.splitOn " ||| " with
+  | [op, out] =>
+    let ow := words out
+    match words op with
+    | "new" :: _ =>
+      let e : List String × List String × List String × List String := ([], [], [], [])
+      ({ exp := some e }, checkObs e "ok" ow)
+    | "parse" :: _ :: "@V" :: rest =>
+      match (kv rest "Q").bind parseListStr, (kv rest "AN").bind parseListStr,
+            (kv rest "AU").bind parseListStr, (kv rest "AD").bind parseListStr with
+      | some q, some an, some au, some ad => ({ exp := some (q, an, au, ad) }, checkObs (q, an, au, ad) "ok" ow)
+      | _, _, _, _ => ({}, "bad-annotation")
+    | "parse" :: _ :: "@E" :: g :: _ =>
+      -- a malformed name / pointer loop / out-of-range pointer reachable from getter `g`: it must report an error
+      -- (or the constructor must have rejected the message)
+      let r := (kv ow g).getD ""
+      if (ow.head?.getD "").startsWith "throw:" || r.startsWith "!" then ({}, "ok")
+      else ({}, s!"violates malformed-name-reported getter={g}")
+    | "parse" :: _ => ({}, "unspecified")
+    | "addq" :: n :: t :: c :: _ =>
+      match st.exp, parseHex n, t.toNat?, c.toNat? with
+      | some (q, an, au, ad), some n, some t, some c =>
+        match specOfQuery ⟨n, t, c⟩ with
+        | some s => let e := (q ++ [showQuery s.view], an, au, ad); ({ exp := some e }, checkObs e "ok" ow)
+        | none => ({}, "unspecified")
+      | _, _, _, _ => ({}, "unspecified")
+    | "reparse" :: _ =>
+      match st.exp with
+      | some e => (st, checkObs e "ok" ow)
+      | none => (st, "unspecified")
+    | "ser" :: _ => (st, if st.exp.isSome then "ok" else "unspecified")
+    | o :: rest =>
+      match st.exp, secOf o, parseNewRec rest with
+      | some (q, an, au, ad), some sec, some r =>
+        match specOfNew r with
+        | some s =>
+          let v := showResource s.view
+          let e := match sec with
+            | .answer => (q, an ++ [v], au, ad)
+            | .authority => (q, an, au ++ [v], ad)
+            | .additional => (q, an, au, ad ++ [v])
+          ({ exp := some e }, checkObs e "ok" ow)
+        | none =>
+          -- an address text that inet_pton rejects: the call must fail and leave the message as it was
+          if (r.type = tA ∨ r.type = tAAAA) ∧ r.aux.isNone ∧ (specOfNew { r with type := 0 }).isSome then
+            (st, checkObs (q, an, au, ad) "throw:invalid_address" ow)
+          else ({}, "unspecified")
+      | none, some _, some _ => ({}, "unspecified")
+      | _, _, _ => (st, "bad-line")
+    | _ => (st, "bad-line")
+  | _ => (st, "bad-line")
+
+def initSpec : OState := {}
 
 end Driver.C10
